@@ -58,7 +58,13 @@ func (ex *Exec) guardFor(root types.Type, path string) *guardDecl {
 	return nil
 }
 
-func lockTag(root types.Type, field string) string { return typeName(root) + "." + field }
+var tagTypeTable = map[string]types.Type{}
+
+func lockTag(root types.Type, field string) string {
+	n := typeName(root)
+	tagTypeTable[n] = root
+	return n + "." + field
+}
 
 // heldGoal: some held lock with the given tag has base == ref.
 func (st *State) heldGoal(tag, ref string) string {
@@ -192,42 +198,74 @@ func (w *World) lockRank(tag string) int {
 	return -1
 }
 
-// onAcquire / onRelease implement the lock-invariant rule in concurrency mode: acquiring a lock
-// havocs the state it guards and assumes the lock invariant; releasing asserts it.
+// onAcquire: acquiring the mutex that guards a map field
+//   - in concurrency mode havocs the map's contents (any other goroutine respecting the same discipline may
+//     have changed them since this goroutine last held the lock), and
+//   - always records the contents at the acquisition as the ghost snapshot atlock(m): the state of the
+//     critical section's linearisation point, which postconditions under concurrency refer to instead of old().
 func (ex *Exec) onAcquire(st *State, tag, base string) {
-	if !ex.mode.concurrency {
-		return
-	}
-	li := ex.w.lockInvFor(tag)
-	if li == nil {
-		return
-	}
-	for _, r := range sortedKeys(ex.regSorts) {
-		for _, pat := range li.regions {
-			if matchRegion(pat, r) {
-				st.havocRegion(r)
+	for i := range ex.w.guards {
+		g := &ex.w.guards[i]
+		if !strings.HasSuffix(tag, "."+g.lock) {
+			continue
+		}
+		// tag = <typeName>.<lock>; find the struct type by name among regions: the guarded field region
+		root := ex.typeOfTag(tag)
+		if root == nil || typeBaseName(root) != g.typ {
+			continue
+		}
+		s, ok := root.Underlying().(*types.Struct)
+		if !ok {
+			continue
+		}
+		for fi := 0; fi < s.NumFields(); fi++ {
+			if s.Field(fi).Name() != g.field {
+				continue
+			}
+			mt, ok := s.Field(fi).Type().Underlying().(*types.Map)
+			if !ok {
+				continue
+			}
+			ref := st.readLeaf(root, g.field, "Int", base)
+			dom, ds := mapRegions(mt)
+			_, domInner := arraySorts(ds)
+			if ex.mode.concurrency {
+				d := st.region(dom, ds)
+				st.setRegion(dom, ds, store(d, ref, ex.fresh("conc_dom", domInner)))
+				for _, lf := range leaves(mt.Elem()) {
+					vr, vs := mapValRegion(mt, lf)
+					_, vin := arraySorts(vs)
+					a := st.region(vr, vs)
+					st.setRegion(vr, vs, store(a, ref, ex.fresh("conc_val", vin)))
+				}
+			}
+			sd, sds := "G!snap!"+typeName(mt)+"!dom", ds
+			st.setRegion(sd, sds, store(st.region(sd, sds), ref, sel(st.region(dom, ds), ref)))
+			for _, lf := range leaves(mt.Elem()) {
+				vr, vs := mapValRegion(mt, lf)
+				sv := "G!snap!" + typeName(mt) + "!val"
+				if lf.path != "" {
+					sv += "!" + lf.path
+				}
+				st.setRegion(sv, vs, store(st.region(sv, vs), ref, sel(st.region(vr, vs), ref)))
 			}
 		}
 	}
-	e := &env{vars: map[string]Val{"self": {K: KTerm, T: base, Typ: li.selfType}}}
-	for _, c := range li.invs {
-		st.assume(ex.evalBool(st, c.expr, e))
-	}
 }
 
-func (ex *Exec) onRelease(st *State, tag, base string) {
-	if !ex.mode.concurrency {
-		return
+func (ex *Exec) onRelease(st *State, tag, base string) {}
+
+// typeOfTag finds the struct type whose lockTag prefix equals tag's type part.
+func (ex *Exec) typeOfTag(tag string) types.Type {
+	i := strings.LastIndex(tag, ".")
+	if i < 0 {
+		return nil
 	}
-	li := ex.w.lockInvFor(tag)
-	if li == nil {
-		return
+	want := tag[:i]
+	if t, ok := ex.tagTypes[want]; ok {
+		return t
 	}
-	e := &env{vars: map[string]Val{"self": {K: KTerm, T: base, Typ: li.selfType}}}
-	for _, c := range li.invs {
-		g := ex.evalBool(st, c.expr, e)
-		ex.record(st, fmt.Sprintf("%s/lockinv:%s:%s", ex.rootName, tag, c.label), "lockinv", g, c.src)
-	}
+	return nil
 }
 
 type lockInv struct {
